@@ -87,6 +87,21 @@ class LRUCache_put(FnSpec):
 # ---------------------------------------------------------------------------------------------
 
 
+# What the wrapped store answers for a blob stored as v: v itself for the memory store, decode(encode(v)) for the file stores
+# (a bytearray comes back as bytes, a subclass instance as its base class ...).  Left uninterpreted: the wrapper is invisible
+# only if it never answers with an object the wrapped store has not read back.
+READ_BACK = z3.Function("value_the_wrapped_store_reads_back", ANY.sort(), ANY.sort())
+
+
+def _st_store_blob_rb(eng, args, kwargs, node):
+    st, key, blob = args[0], args[1], args[2]
+    k = KEY.lift(key).term
+    eng.event("store_blob", store=st, key=key, blob=blob)
+    st.blobs.dom = z3.Store(st.blobs.dom, k, z3.BoolVal(True))
+    st.blobs.val = z3.Store(st.blobs.val, k, READ_BACK(ANY.lift(blob).term))
+    return None
+
+
 def lru_store_obj():
     return ObjVal("LRUCacheStore", _store=abstract_store("inner"), _num_elem=TInt.const("num_elem"), _cache=lru_cache_obj("lru"))
 
@@ -106,7 +121,7 @@ class _LRUStoreBase(FnSpec):
 
     def __init__(self):
         super().__init__()
-        self.classes["Store"] = ABSTRACT_STORE_CLASS
+        self.classes["Store"] = dict(ABSTRACT_STORE_CLASS, store_blob=Model(_st_store_blob_rb, "Store.store_blob"))
         self.classes["LRUCache"] = {"get": LRUCache_get().as_callee(), "put": LRUCache_put().as_callee()}
 
     def requires(self, ctx):
@@ -157,13 +172,13 @@ class LRUCacheStore_store_blob(_LRUStoreBase):
         b = ctx.args["self"]._store.blobs
         k, v = ctx.args["key"].term, ctx.args["blob"].term
         # content addressing (DESIGN 4.2): a key is only ever re-stored with the value it already denotes
-        return super().requires(ctx) + [("content_addressed", z3.Or(z3.Not(b.has(k)), b.get(k) == v))]
+        return super().requires(ctx) + [("content_addressed", z3.Or(z3.Not(b.has(k)), b.get(k) == READ_BACK(v)))]
 
     def ensures(self, ctx):
         o, n = ctx.old["self"]._store, ctx.args["self"]._store
         k, v = ctx.args["key"].term, ctx.args["blob"].term
         return [
-            ("blobs_updated", z3.And(n.blobs.dom == z3.Store(o.blobs.dom, k, z3.BoolVal(True)), n.blobs.val == z3.Store(o.blobs.val, k, v))),
+            ("blobs_updated", z3.And(n.blobs.dom == z3.Store(o.blobs.dom, k, z3.BoolVal(True)), n.blobs.val == z3.Store(o.blobs.val, k, READ_BACK(v)))),
             ("paths_unchanged", z3.And(n.paths.dom == o.paths.dom, n.paths.val == o.paths.val)),
         ] + self.inv_after(ctx)
 
@@ -203,12 +218,12 @@ class _Faulty:
 
     def __init__(self):
         super().__init__()
-        from .common import _st_store_blob, _st_sync_paths
+        from .common import _st_sync_paths
 
         from .common import _st_fetch_blob
 
         cls = dict(self.classes["Store"])
-        cls["store_blob"] = _faulty(_st_store_blob, "store_blob")
+        cls["store_blob"] = _faulty(_st_store_blob_rb, "store_blob")
         cls["sync_paths"] = _faulty(_st_sync_paths, "sync_paths")
         cls["fetch_blob"] = _faulty(_st_fetch_blob, "fetch_blob")  # e.g. a blob whose class is not importable yet
         self.classes["Store"] = cls
